@@ -27,7 +27,14 @@ func (Prop) Rule() string {
 		"through gmsm cipher.NewECB*(block) (fused assembly where the tier has it), through the same constructor over a wrapper hiding every fast-path interface, " +
 		"and through the block's own EncryptBlocks/DecryptBlocks (Concurrency() and 2*Concurrency() blocks) where offered; oracle = reference SM4 per block, bytes outside the slices unchanged (canary + guard page), source unchanged when disjoint; " +
 		"(c) sm4.NewCipher with every key length 0..40: error iff length != 16, no panic. " +
-		"distinct_nontrivial counts distinct (key index, block class) pairs, (path, n, p) placements and key lengths; every configuration is compared with the same reference, which implies cross-tier equality."
+		"(d) widened input dimensions (widen*.go), same reference oracle plus: nothing outside the destination handed over is written, the source of a disjoint call and the caller's key are unchanged: " +
+		"layout/ = every path x both directions x block counts on both sides of every kernel threshold x argument arrangements (dst and src at every pair of 24 start addresses: every residue mod 16 and the addresses differing mod 32/64; in place at each, dst||src and src||dst in one record with capacities reaching to its end or cut to the length, dst longer than src by 1..256 bytes disjoint / in place / in one record, src longer than a block), every byte of both dirty arenas compared with its expected image; " +
+		"ctor/ = key at every address mod 16, ending at an unmapped page, as head of a record key||block, unchanged by NewCipher, overwritten after AND before the first use of the object, slice reused for a second constructor with both objects alive, all objects probed on every path; key lengths nil, 0..80 and up to 65536 ending at an unmapped page, len != cap shapes, good constructor after a rejected one; " +
+		"history/ = one block with its fused and generic ECB objects of both directions and its batch methods plus a second block: every ordered pair a;b;a (thorough: triple) over ~65 operations incl. sizes up and down, re-created mode objects, other constructors, rejected keys and panicking calls, each history with fresh content per call and with the same content in every call; " +
+		"len/ = ECB over 41..80 blocks (distinguished block at kernel boundaries; thorough: every position) and around 96..1025 blocks, batch methods with every source length Concurrency()..4*Concurrency() blocks (first batch right, later blocks right or untouched, nothing behind len(src) written, guard pages behind src and dst), empty calls; " +
+		"values/ = every byte value at every byte position on zero and on ones background and all equal-byte values (8448) as key x 4 blocks + 9-block ECB, and as one message under 8 keys taken through every lane of every kernel (whole message after 0..15 filler blocks, chunks of 1,2,3,4,8 blocks after every offset, batch methods in chunks of one and two batches after every offset, generic ECB, single calls); " +
+		"contract/ = short source / short destination / partial-block calls (the API panics): judged only for stores outside dst[:len(dst)] (slices ending at an unmapped page, and slices with dirty capacity behind them) and for the object still working afterwards. " +
+		"distinct_nontrivial counts distinct (key index, block class) pairs, (path, n, p) placements, key lengths, (path, direction, n, arrangement) layouts, key placements, histories, lengths, values and short shapes; every configuration is compared with the same reference, which implies cross-tier equality."
 }
 func (Prop) Assumptions() []string {
 	return []string{
@@ -35,6 +42,9 @@ func (Prop) Assumptions() []string {
 		"the 2^256 key x block space beyond the structured alphabet is not covered (no sampling is used)",
 		"dispatch tiers are those reachable on this amd64 host via GODEBUG=cpu.*=off, FORCE_SM4BLOCK_AESNI=1 and -tags purego; arm64 (NEON, SM4-NI), ppc64le and s390x assembly are not covered",
 		"reads before the start of a buffer are not observable (only the end is guarded by a protected page; the front has a write canary)",
+		"a buffer cannot both start at an address that is not a multiple of 16 and end at an unmapped page (lengths are whole blocks): unaligned arguments are checked for stores outside the destination by comparing the surrounding dirty arena, reads behind them are only seen through a wrong result",
+		"calls the crypto/cipher contract answers with a panic (partial blocks, destination shorter than the source, inexact overlap) have no defined result; only memory safety is judged for the short-argument shapes, inexactly overlapping arguments are not enumerated; the batch methods with a destination shorter than the source are not enumerated either (unwritten contract)",
+		"the batch methods EncryptBlocks/DecryptBlocks have no written contract for more than Concurrency() blocks: beyond the first batch a block may be processed or left untouched",
 	}
 }
 
@@ -215,6 +225,9 @@ func (Prop) Run(c *engine.Ctx) {
 			}
 		}
 	})
+
+	// (d) widened input dimensions (widen*.go)
+	widen(c)
 }
 
 func dir2(dec bool) string {
